@@ -5,6 +5,9 @@ use std::fmt;
 use std::net::SocketAddr;
 use std::str::FromStr;
 
+#[cfg(tiny_http_verif)]
+use simrt::sync::mpsc::Sender;
+#[cfg(not(tiny_http_verif))]
 use std::sync::mpsc::Sender;
 
 use crate::util::{EqualReader, FusedReader};
